@@ -111,6 +111,17 @@ impl OrderedCallGraph {
             krate_collection,
             diagnostics,
         );
+        #[cfg(pavex_verif)]
+        super::verif_dump::emit(format!(
+            "{{\"ev\":\"after_mc\",\"ndiag\":{},\"g\":{}}}",
+            diagnostics.len() - n_diagnostics,
+            super::verif_dump::graph_json(
+                &call_graph.call_graph,
+                copy_checker,
+                component_db,
+                computation_db
+            )
+        ));
         let call_graph = move_while_borrowed(
             call_graph,
             copy_checker,
@@ -119,6 +130,17 @@ impl OrderedCallGraph {
             krate_collection,
             diagnostics,
         );
+        #[cfg(pavex_verif)]
+        super::verif_dump::emit(format!(
+            "{{\"ev\":\"after_mwb\",\"ndiag\":{},\"g\":{}}}",
+            diagnostics.len() - n_diagnostics,
+            super::verif_dump::graph_json(
+                &call_graph.call_graph,
+                copy_checker,
+                component_db,
+                computation_db
+            )
+        ));
         // If we find any, we stop here—we risk generating duplicated diagnostics for other
         // (more subtle) violations that will disappear once we fix the "obvious" ones.
         if diagnostics.len() > n_diagnostics {
